@@ -473,6 +473,16 @@ impl World {
     /// A new history on these servers: a fresh key object entry created on server 0 and
     /// replicated to server 1; the replicas are brought level in both directions first.
     fn begin(&mut self, case: &Case, drv: &mut Driver) -> Result<(), String> {
+        // every commit reloads all live key objects: retire the previous history's entry
+        if !self.ko.is_nil() {
+            self.now += 1;
+            let mut wr = self.rt.block_on(self.qs[0].write(dur(self.now))).map_err(|e| format!("{e:?}"))?;
+            wr.internal_delete_uuid(self.ko).map_err(|e| format!("delete previous key object:{e:?}"))?;
+            wr.commit().map_err(|e| format!("{e:?}"))?;
+            if self.nsrv() == 2 {
+                self.repl_real(0, 1, None)?;
+            }
+        }
         self.serial += 1;
         self.ko = nat_uuid(340_000 + self.serial);
         self.keys.clear();
@@ -676,9 +686,10 @@ struct Stats {
 /// of the same observation round) ends it.
 fn run_case(case: &Case, drv: &mut Driver, st: &mut Stats, check_model: bool, worlds: &mut [Option<World>; 2]) -> Result<(), Fail> {
     let slot = if case.pair { 1 } else { 0 };
+    // every commit reloads *all* key objects of the server: start over with fresh servers regularly
     let res = match worlds[slot].take() {
-        Some(w) => Ok(w),
-        None => World::boot(case.pair),
+        Some(w) if w.serial < 40 => Ok(w),
+        _ => World::boot(case.pair),
     };
     let mut w = res.map_err(|e| Fail { kind: "harness", class: "harness-error".into(), expected: "the harness can drive the servers".into(), observed: e })?;
     let r = run_case_in(case, drv, st, check_model, &mut w);
